@@ -47,6 +47,10 @@ pub trait Kind: Reader<Offset = usize> {
     fn k_range_to(&self, b: usize) -> Option<Self>;
     /// pointer + length of the bytes currently viewed
     fn view(&self) -> (*const u8, usize);
+    /// the same through `Deref<Target = [u8]>` (None where the kind does not dereference to bytes)
+    fn deref_view(&self) -> Option<(*const u8, usize)> {
+        None
+    }
 }
 
 impl<'a> Kind for EndianSlice<'a, RunTimeEndian> {
@@ -62,6 +66,10 @@ impl<'a> Kind for EndianSlice<'a, RunTimeEndian> {
     }
     fn view(&self) -> (*const u8, usize) {
         (self.slice().as_ptr(), self.slice().len())
+    }
+    fn deref_view(&self) -> Option<(*const u8, usize)> {
+        let s: &[u8] = self;
+        Some((s.as_ptr(), s.len()))
     }
 }
 
@@ -80,6 +88,10 @@ macro_rules! endian_reader_kind {
             }
             fn view(&self) -> (*const u8, usize) {
                 (self.bytes().as_ptr(), self.bytes().len())
+            }
+            fn deref_view(&self) -> Option<(*const u8, usize)> {
+                let s: &[u8] = self;
+                Some((s.as_ptr(), s.len()))
             }
         }
     };
@@ -331,6 +343,9 @@ fn interpret<K: Kind>(h: &History, root: K, base: *const u8, other: &K, cx: &mut
             let (p, l) = $r.view();
             ensure_eq!(l, $c.len, format!("c10/{}/len", $what), "kind={} op#{}", k, trace.len());
             ensure_eq!($r.len(), $c.len, format!("c10/{}/Reader::len", $what), "kind={}", k);
+            if let Some((dp, dl)) = $r.deref_view() {
+                ensure!(dl == l && (l == 0 || dp == p), format!("c10/{}/deref", $what), "kind={} op#{} dereferences to {} bytes at {:?}, views {} bytes at {:?}", k, trace.len(), dl, dp, l, p);
+            }
             if !$c.emptied {
                 let off = (p as usize).wrapping_sub(base as usize);
                 ensure!(
@@ -1030,6 +1045,31 @@ fn check_sections(ch: &mut Choices, cx: &mut Ctx) -> R {
             let mut r = EndianSlice::new(bytes, endian);
             r.skip(k).map_err(|e| Failure { sig: "c10/sections/skip".into(), detail: format!("{e:?}") })?;
             ensure_eq!(plain.lookup_offset_id(r.offset_id()), Some((false, sid, k)), "c10/sections/lookup_offset_id", "{:?} offset {}", sid, k);
+        }
+    }
+    // a package contribution is exactly the bytes [offset, offset+size) of the section, or refused
+    {
+        use gimli::Section;
+        let bytes = get(S::DebugInfo);
+        let sec = gimli::DebugInfo::new(bytes, endian);
+        let n = bytes.len();
+        let mut picks: Vec<(usize, usize)> = vec![(0, n), (0, 0), (n, 0), (n / 2, n - n / 2), (n / 3, n / 3), (1.min(n), n.saturating_sub(1)), (0, n + 1), (n, 1), (n + 1, 0), (n / 2, n)];
+        for _ in 0..3 {
+            picks.push((ch.below(n + 2), ch.below(n + 2)));
+        }
+        for (off, size) in picks {
+            let got = sec.dwp_range(off as u32, size as u32);
+            if off + size <= n {
+                match got {
+                    Ok(sub) => {
+                        let r = sub.reader();
+                        ensure!(r.slice() == &bytes[off..off + size] && (size == 0 || r.slice().as_ptr() == bytes[off..].as_ptr()), "c10/sections/dwp_range", "offset {} size {} of {} bytes: got {} bytes", off, size, n, r.len());
+                    }
+                    Err(e) => fail!("c10/sections/dwp_range-refused", "offset {} size {} of {} bytes: {:?}", off, size, n, e),
+                }
+            } else {
+                ensure!(got.is_err(), "c10/sections/dwp_range-out-of-bounds", "offset {} size {} of {} bytes accepted", off, size, n);
+            }
         }
     }
     let foreign = [0u8; 4];
